@@ -88,7 +88,7 @@ def build(tier, seed, known):
         nonlocal src
         pres = list(pres) + ["not (%s)" % e for e in known_exclusions(known, family)]
         src += fn_src(name, params, pres, body)
-        plan.obs.append(Ob(name, family, "m", name, timeout, expect, desc, bounds))
+        plan.obs.append(Ob(name, family, "m", name, timeout if tier == "quick" else timeout * 4, expect, desc, bounds))
 
     # ---- F1: string literals at program level (pure-Python escaping, payload any Unicode) ----
     for cname, pre, post in ctxs:
